@@ -229,7 +229,7 @@ func checkC14(tier string) *Report {
 	rep.Extra["single_mutations"] = nSingles
 	rep.Extra["pair_mutations"] = nPairs
 	rep.Extra["inputs"] = len(inputs)
-	rep.Extra["states"] = stateNames
+	rep.Extra["start_states"] = stateNames
 
 	parallelFor(worlds, len(inputs), func(w *World, i int) {
 		in := inputs[i]
